@@ -229,9 +229,14 @@ class Runner:
         return self.pairs(s)
 
     def observe(self):
-        info = self.f.info()
-        return dict(mem=self.pairs(self.c), arch=self.archpairs(), swap=self.swappairs(),
-                    stats=[info.hit, info.miss, info.load], size=info.size, maxsize=info.maxsize)
+        try:
+            info = self.f.info()
+            return dict(mem=self.pairs(self.c), arch=self.archpairs(), swap=self.swappairs(),
+                        stats=[info.hit, info.miss, info.load], size=info.size, maxsize=info.maxsize)
+        except Exception as e:
+            # the cache / archive cannot even be read back: reported as a violation by the monitors
+            return dict(error='%s: %s' % (type(e).__name__, str(e)[:80]), mem=[], arch=None, swap=None,
+                        stats=[-1, -1, -1], size=-1, maxsize=None)
 
     def cfg_line(self):
         c = self.cfg
@@ -423,7 +428,13 @@ def run_trace(cfg, ops):
         recs = []
         before = R.observe()
         for i, op in enumerate(ops):
-            line, out, args = R.do(op)
+            try:
+                line, out, args = R.do(op)
+            except Exception as e:
+                # a management operation of the implementation raised: the monitors report it
+                recs.append(dict(i=i, op=op, line=None, out={'crash': '%s: %s' % (type(e).__name__, str(e)[:100])},
+                                 before=before, after=before))
+                break
             after = R.observe()
             if R.orig is not None and op[0] != 'clone':
                 ind = R.independence()
